@@ -15,7 +15,7 @@ export const SUFFIXES = [[], ['m1'], ['m1', 'm2'], ['zeta', 'alpha']];
 export const NSARGS = [null, 'arg1', 'argCamel'];
 export const VALUE_FORMS = ['expr', 'call', 'arr1', 'arrArgStr', 'arrArgExpr', 'arrMods', 'arrArgStrMods', 'arrArgExprMods', 'str', 'none', 'arrEmptyMods'];
 export const HOSTKINDS = ['element', 'component'];
-export const NEIGHBOURS = ['none', 'attrBefore', 'attrAfter', 'secondDir', 'withShow', 'spreadBefore', 'classAndChild'];
+export const NEIGHBOURS = ['none', 'attrBefore', 'attrAfter', 'secondDir', 'sameDirTwice', 'withShow', 'spreadBefore', 'classAndChild'];
 
 export function makeDirective(b, spelling, suffixes, nsArg, form, tagN) {
   const [srcName, name] = spelling;
@@ -70,6 +70,11 @@ function build(rng, spelling, suffixes, nsArg, form, hk, neighbour) {
     case 'secondDir': {
       const d2 = makeDirective(b, ['v-second', 'second'], ['x'], null, 'expr', 1);
       attrs.push(d, d2); break;
+    }
+    case 'sameDirTwice': {
+      // the same directive written twice (different argument / value): two bindings
+      const d2 = makeDirective(b, spelling, [], spelling[1] === 'show' ? null : 'other', 'call', 1);
+      attrs.push(d, plain('pm'), d2); break;
     }
     case 'withShow': {
       const d2 = makeDirective(b, ['v-show', 'show'], [], null, 'expr', 1);
